@@ -564,9 +564,13 @@ def _r12i(cx, resize, fit):
     # fit_to_width: result of resize, then the dots, nothing else
     rs = [st for st, v in assignments(fit, "result") if v is not None and isinstance(v, ast.Call) and call_name(v) == "resize_chunks_list"]
     cx.need(len(rs) == 1, "R12i", fit, "truncation branch of fit_to_width")
-    blk = parent(rs[0]).body if rs[0] in getattr(parent(rs[0]), "body", []) else None
+    par = parent(rs[0])
+    blk = next((lst for lst in (getattr(par, "body", None), getattr(par, "orelse", None)) if isinstance(lst, list) and rs[0] in lst), None)
     cx.need(blk is not None, "R12i", fit, "truncation branch block")
     tail = blk[blk.index(rs[0]) + 1:]
+    if len(tail) == 1 and isinstance(fit.body[-1], ast.Return) and norm(fit.body[-1]) == "return result" and not any(
+            isinstance(x, (ast.Assign, ast.AugAssign, ast.Expr)) for x in fit.body[fit.body.index(next(a for a in [rs[0]] + list(ancestors(rs[0])) if a in fit.body)) + 1:-1]):
+        tail = tail + [fit.body[-1]]        # single exit: the branch falls through to the function's final `return result`
     ok = len(tail) == 2 and norm(tail[0]).startswith("result.append(") and "'.' * dots_len" in norm(tail[0]).replace("*", " * ").replace("  ", " ") and norm(tail[1]) == "return result" \
         and norm(rs[0].value.args[0]) == params(fit)[0] and norm(rs[0].value.args[1]) == "visible_text_len"
     cx.ob("R12i", rs[0], ok, "truncated cell = resize(cell's own chunks, width - dots) followed by the dots chunk" if ok else "the truncation branch does not return resize(own chunks, visible length) + dots")
